@@ -431,8 +431,8 @@ func H_C09_pipes() {
 func parseDecimal(s string) (float64, bool) {
 	i := 0
 	neg := false
-	if i < len(s) && s[i] == '-' {
-		neg = true
+	if i < len(s) && (s[i] == '-' || s[i] == '+') {
+		neg = s[i] == '-'
 		i++
 	}
 	digits, dot, frac := 0, false, 0
